@@ -40,7 +40,7 @@ else:
             decodedCssText = codecs.lookup('css')[1](content, encoding=encoding)[0]
         except AttributeError:
             decodedCssText = content.decode(encoding if encoding else 'utf-8')
-    except UnicodeDecodeError as e:
+    except Exception as e:
         log.warn(e, neverraise=True)
         decodedCssText = None'''
 PIN_RETURN = 'return (encoding, enctype, decodedCssText)'
@@ -176,7 +176,7 @@ def generate():
                '    (detect_unicode detect_str : option enc * bool) (parentEncoding : option enc)\n'
                '    : option enc * option N :=\n%s.\n\n' % ladder)
     out.append('(* the decode block: text is passed through, bytes go through the css codec with\n'
-               '   the chosen encoding; UnicodeDecodeError -> None *)\n'
+               '   the chosen encoding; any failure to decode -> None *)\n'
                'Definition readurl_decoded (content_is_str decodes : bool) : bool :=\n'
                '  if content_is_str then true else decodes.\n\n')
     info.append(src_info('GenEncoding.readurl_ladder', 'cssutils/util.py', line, line + len(inspect.getsourcelines(util._readUrl)[0])))
